@@ -5,10 +5,15 @@
      geo::Area::unsigned_area of the clipped ring (shoelace)
    One definition over NumOps (DESIGN 2.1): theorems are about the Qops instance (Proofs/GeomProofs.v), the very
    same terms are evaluated on the implementation's exact dyadic inputs by tools/props/c08.py.
-   Hand-written; the scalar pieces [cross]/[is_inside]/[compute_intersection]/[aa_inter]/[too_far] are to be
-   replaced by (or proved equal to) the translated versions of gen/Scalar.v once the translator emits them. *)
+   The scalar pieces are the functions TRANSLATED from the Rust source on every run (gen/ScalarClip.v, gen/ScalarBox.v):
+   [is_inside], [compute_intersection], [rect_vertices], [radius2], [aa_inter] ARE the translated clip_is_inside,
+   clip_compute_intersection, ubox_vertices, ubox_radius_sq, bbox_intersection (through the small conversions
+   to_coord / to_ubox / to_bbox); [box_area], [to_ltwh], [of_ltwh], [too_far] are hand-written and proved equal to
+   ubox_area, ubox_to_bbox, bbox_to_ubox, ubox_too_far_r in Proofs/GeomProofs.v (theorems *_is_translation of
+   Props/C08.v).  The list programs (clip loops, shoelace, the reference) are hand-written. *)
 From Coq Require Import List Bool ZArith QArith.
 From Similari Require Import Base.Num.
+From SimilariGen Require Import Scalar ScalarClip ScalarBox.
 Import ListNotations.
 
 Section Geom.
@@ -24,7 +29,7 @@ Notation "- x" := (opp num x).
 Infix "<=?" := (leb num).
 Infix "<?" := (ltb num).
 
-Definition two : F := 1 + 1.
+Definition two : F := of_Q num (Qmake 2%Z xH).
 Definition eqb (a b : F) : bool := (a <=? b) && (b <=? a).
 
 Definition pt : Type := (F * F)%type.
@@ -32,23 +37,22 @@ Definition px (p : pt) : F := fst p.
 Definition py (p : pt) : F := snd p.
 Definition pt_eqb (p q : pt) : bool := eqb (px p) (px q) && eqb (py p) (py q).
 
-(* clipping.rs:12  r = (p2.x - p1.x) * (q.y - p1.y) - (p2.y - p1.y) * (q.x - p1.x);  r <= 0.0 *)
+(* conversions between the model's points (pairs) and the translated record Coord *)
+Definition to_coord (p : pt) : Coord num := Build_Coord num (fst p) (snd p).
+Definition of_coord (c : Coord num) : pt := (Coord_x num c, Coord_y num c).
+
+(* the cross product that clipping.rs evaluates (in is_inside and, since commit 04617aa, in the closure `side` of
+   compute_intersection); used to STATE lemmas: the model itself calls the translated functions below *)
 Definition cross (p1 p2 q : pt) : F :=
   (px p2 - px p1) * (py q - py p1) - (py p2 - py p1) * (px q - px p1).
 
-Definition is_inside (q p1 p2 : pt) : bool := cross p1 p2 q <=? 0.
+(* clipping.rs is_inside: TRANSLATED (gen/ScalarClip.v clip_is_inside):  r <= 0.0 *)
+Definition is_inside (q p1 p2 : pt) : bool := clip_is_inside num (to_coord q) (to_coord p1) (to_coord p2).
 
-(* clipping.rs compute_intersection (since the fix: commit 04617aa): the crossing of the segment cp1-cp2 with the line
-   through s and e, computed along the segment.  The closure [side] of the Rust code is literally [cross s e]:
-     let side = |q| (e.x - s.x) * (q.y - s.y) - (e.y - s.y) * (q.x - s.x);
-     let t = (d1 / (d1 - d2)).clamp(0.0, 1.0);   Coord { x: cp1.x + t * (cp2.x - cp1.x), ... }            *)
-Definition clamp01 (t : F) : F := if t <? 0 then 0 else if 1 <? t then 1 else t.
-
+(* clipping.rs compute_intersection: TRANSLATED (clip_compute_intersection): the crossing of the segment cp1-cp2 with
+   the line through s and e, computed along the segment, t = (d1 / (d1 - d2)).clamp(0.0, 1.0) *)
 Definition compute_intersection (cp1 cp2 s e : pt) : pt :=
-  let d1 := cross s e cp1 in
-  let d2 := cross s e cp2 in
-  let t := clamp01 (d1 / (d1 - d2)) in
-  (px cp1 + t * (px cp2 - px cp1), py cp1 + t * (py cp2 - py cp1)).
+  of_coord (clip_compute_intersection num (to_coord cp1) (to_coord cp2) (to_coord s) (to_coord e)).
 
 (* the line-line formula the code used before the fix (kept as documentation: GeomProofs.compute_intersection_lines_eq
    shows it is the same point in exact arithmetic whenever the clipper calls it) *)
@@ -121,28 +125,19 @@ Definition shoelace (l : list pt) : F := abs num (twice_signed_area l) / two.
 (* Boxes.  [bc], [bs] are the cosine and sine of the angle (angle None: 1, 0) - inputs of the model. *)
 Record box := mkbox { bxc : F; byc : F; bc : F; bs : F; basp : F; bh : F }.
 
-(* bbox.rs:287-330 *)
-Definition rect_vertices (b : box) : list pt :=
-  let c := bc b in
-  let s := bs b in
-  let half_width := bh b * basp b / two in
-  let half_height := bh b / two in
-  let r1x := (- half_width) * c - half_height * s in
-  let r1y := (- half_width) * s + half_height * c in
-  let r2x := half_width * c - half_height * s in
-  let r2y := half_width * s + half_height * c in
-  let x := bxc b in
-  let y := byc b in
-  [(x + r1x, y + r1y); (x + r2x, y + r2y); (x - r1x, y - r1y); (x - r2x, y - r2y)].
+(* the translated record of a box (the angle itself is never used by the translated functions called here: cos and
+   sin are passed separately; confidence is irrelevant) *)
+Definition to_ubox (b : box) : Universal2DBox num :=
+  Build_Universal2DBox num (bxc b) (byc b) None (basp b) (bh b) 1.
+
+(* bbox.rs From<&Universal2DBox> for Polygon<f64>: TRANSLATED (gen/ScalarBox.v ubox_vertices) *)
+Definition rect_vertices (b : box) : list pt := map of_coord (ubox_vertices num (to_ubox b) (bc b) (bs b)).
 
 (* the union term of the IoU uses height*height*aspect *)
 Definition box_area (b : box) : F := bh b * bh b * basp b.
 
-(* get_radius squared: hw*hw + hh*hh *)
-Definition radius2 (b : box) : F :=
-  let hw := basp b * bh b / two in
-  let hh := bh b / two in
-  hw * hw + hh * hh.
+(* get_radius squared: TRANSLATED (ubox_radius_sq): hw*hw + hh*hh *)
+Definition radius2 (b : box) : F := ubox_radius_sq num (to_ubox b).
 
 Definition dist2 (l r : box) : F :=
   let x := bxc l - bxc r in
@@ -171,15 +166,10 @@ Definition iou (l r : box) : option F := iou_of (inter_area l r) (box_area l) (b
 (* Axis-aligned closed form: BoundingBox {left, top, width, height} *)
 Record ltwh := mkltwh { bl : F; bt : F; bw : F; bhh : F }.
 
-(* bbox.rs:54-74 *)
-Definition aa_inter (l r : ltwh) : F :=
-  let ax0 := bl l in let ay0 := bt l in let ax1 := bl l + bw l in let ay1 := bt l + bhh l in
-  let bx0 := bl r in let by0 := bt r in let bx1 := bl r + bw r in let by1 := bt r + bhh r in
-  let x1 := max num ax0 bx0 in let y1 := max num ay0 by0 in
-  let x2 := min num ax1 bx1 in let y2 := min num ay1 by1 in
-  let int_width := x2 - x1 in
-  let int_height := y2 - y1 in
-  if (0 <? int_width) && (0 <? int_height) then int_width * int_height else 0.
+Definition to_bbox (r : ltwh) : BoundingBox num := Build_BoundingBox num (bl r) (bt r) (bw r) (bhh r) 1.
+
+(* BoundingBox::intersection: TRANSLATED (gen/ScalarBox.v bbox_intersection) *)
+Definition aa_inter (l r : ltwh) : F := bbox_intersection num (to_bbox l) (to_bbox r).
 
 (* BoundingBox::calculate_metric_object (no None case) *)
 Definition aa_iou (l r : ltwh) : F :=
